@@ -119,6 +119,32 @@ def numeric_statements(r, n, pts_override=None):
         xm = transform.lla_to_ecef([-lat, lon, alt])
         if abs(xm[0] - xyz[0]) > 1e-6 or abs(xm[1] - xyz[1]) > 1e-6 or abs(xm[2] + xyz[2]) > 1e-6:
             bad("lla_to_ecef parity in latitude", lla=list(lla))
+    # mixed argument forms: scalar latitude with a vector of altitudes and vice versa must equal the element-wise
+    # scalar calls (every function of (lat, alt) in earth.py broadcasts its two arguments)
+    if pts_override is None:
+        for k in range(6):
+            lat_s = rng.choice([rng.uniform(-90, 90), 45.0, -33.0])
+            alts = np.array([rng.uniform(-1000, 1e5) for _ in range(rng.choice([2, 3, 5]))])
+            lats = np.array([rng.uniform(-89, 89) for _ in range(len(alts))])
+            alt_s = rng.uniform(-1000, 1e5)
+            forms = [("scalar lat, vector alt", lat_s, alts, [(lat_s, a) for a in alts]),
+                     ("vector lat, scalar alt", lats, alt_s, [(la, alt_s) for la in lats]),
+                     ("vector lat, vector alt", lats, alts, list(zip(lats, alts)))]
+            for fname, fn in (("gravity", earth.gravity), ("gravity_n", earth.gravity_n),
+                              ("principal_radii", lambda a, b: np.array(earth.principal_radii(a, b)).T),
+                              ("curvature_matrix", earth.curvature_matrix)):
+                for form, a1, a2, pairs in forms:
+                    try:
+                        got = np.asarray(fn(a1, a2), dtype=float)
+                        want = np.array([np.asarray(fn(float(x), float(y)), dtype=float) for x, y in pairs])
+                        ok = got.shape == want.shape and np.abs(got - want).max() <= 1e-9 * max(1.0, np.abs(want).max())
+                    except Exception as ex:          # a documented broadcastable form must not raise
+                        ok, got = False, repr(ex)
+                    if not ok:
+                        bad(f"earth.{fname}: {form} differs from the element-wise scalar calls",
+                            lat=(float(np.ravel(a1)[0])), alt=float(np.ravel(a2)[0]), form=form, function=fname,
+                            lats=np.ravel(a1).tolist(), alts=np.ravel(a2).tolist(),
+                            got=(np.asarray(got).tolist() if not isinstance(got, str) else got))
     # scalar vs vectorised
     arr = np.array(pts[:50])
     st = transform.lla_to_ecef(arr)
